@@ -377,10 +377,45 @@ def rule_fn_result_sticky(F, ev, R, config, rule="R-FN-RESULT-STICKY"):
                         err_targets.extend(yes)
             ok = False
             msg = "the error of wrapping a derivative is neither tested nor stored (undetermined)"
+            # paths on which the builder ALREADY holds an error (the Err edge of a test of its own result role) need not
+            # record a second one: the first error is kept
+            already = set()
+            me_ = ("param", b.key, 1)
+            for (sb, si, pk, variants) in b.discr_switches():
+                try:
+                    v = ev.lookup(env, pk, (sb, si))
+                except RecursionError:
+                    continue
+                while True:
+                    if v[0] == "mutated":
+                        v = v[1]
+                    elif v[0] == "call" and v[1].rsplit("::", 1)[-1] in ("as_mut", "as_ref") and v[3]:
+                        v = v[3][0]
+                    elif v[0] == "field" and v[2] in ("0", "1", "2") and v[1][0] == "tuple":
+                        v = v[1][1][int(v[2])]
+                    else:
+                        break
+                if v == ("field", me_, rf):
+                    yes, no = variant_edge(b, sb, "Err")
+                    already |= set(yes or ())
+            # only Err edges that can be taken at all before the error was recorded and while the builder is still Ok count:
+            # drop elaboration re-tests the discriminant after the arms have run — on the path through the Ok arm such a
+            # re-test is decided (jump threading), on the other paths the error is recorded or the builder had failed before
+            import tab as _tab
+            try:
+                th_ = _tab.jump_threads(ev, env)
+            except RecursionError:
+                th_ = {}
+            taken = set()
+            _tab.reachable_threaded(b, 0, rec_blocks, th_, avoid_edges=already, edges_out=taken)
+            err_targets = [(u, tg) for (u, tg) in err_targets if (u, tg) in taken]
+            if not err_targets and (already or rec_blocks):
+                ok = bool(rec_blocks)
+                msg = "the error of wrapping a derivative is tested but never recorded"
             if err_targets:
                 ok = True
                 for (u, tg) in err_targets:
-                    r = b.reachable(tg, avoid=rec_blocks) if tg not in rec_blocks else set()
+                    r = _tab.reachable_threaded(b, tg, rec_blocks, th_, avoid_edges=already) if tg not in rec_blocks else set()
                     if any(x in r for x in b.exits()):
                         ok = False
                         msg = ("a failed derivative (wrong arity, unknown parameter name) is dropped: a path from the Err result of the wrapper "
